@@ -2,7 +2,7 @@
 // EnumerableThreadLocal, CompactEnumerableThreadLocal — C19.  DESIGN.md §3 C19.
 //
 // cfg "subject": 0 adder, 1 summer, 2 maxer, 3 miner, 4 EnumerableThreadLocal<Cell>,
-//                5 CompactEnumerableThreadLocal<Cell16,1>
+//                5 CompactEnumerableThreadLocal<Cell16,1> (4 instances share one line)
 // --mode 0..5 selects one subject. Three scenarios that fire on the unmodified
 // tree are opt-in so that default batches stay clean (see report):
 //   --mode 7  reader concurrent with maxer/miner writers (bounded-read clause)
@@ -38,7 +38,7 @@ const char* const kNames[] = {"create", "destroy", "move", "reset", "read", "cou
 enum Subject { S_ADDER, S_SUMMER, S_MAXER, S_MINER, S_ETL, S_CETL };
 
 struct Cell { uint64_t v; uint64_t magic; Cell() : v(0), magic(0xC0FFEEull) {} };
-struct Cell16 { uint64_t v = 0; uint64_t w = 0; };
+struct Cell16 { uint64_t v = 0; uint64_t w = 0; uint64_t pad[2] = {0, 0}; };  // 32 bytes: 4 instances per 128-byte line
 typedef babylon::ConcurrentAdder Adder;
 typedef babylon::ConcurrentSummer Summer;
 typedef babylon::ConcurrentMaxer Maxer;
@@ -153,19 +153,35 @@ void expect_enumeration(int k, const char* where, bool nonconst_alive) {
   if (!I.obj || (S->subject != S_ETL && S->subject != S_CETL)) return;
   std::set<const void*> all, alive, expect;
   size_t dup = 0;
+  // Known defect (see report): the unclipped for_each_alive overloads
+  // (EnumerableThreadLocal non-const; CompactEnumerableThreadLocal both, since
+  // its Storage* member is not const-propagated) index the block table with
+  // live thread ids beyond this instance's storage size. Default runs avoid
+  // that call; --mode 8 makes it and reports class "oob".
+  size_t size = S->subject == S_ETL ? ((ETL*)I.obj)->_storage.size() : ((CETL*)I.obj)->_storage->_storage.size();
+  bool beyond = false;
+  for (auto& kv : S->live_tid16) if ((size_t)kv.second >= size) beyond = true;
+  bool unclipped = nonconst_alive || S->subject == S_CETL;
+  bool skip_alive = beyond && unclipped && !S->empty_alive;
+  if (skip_alive) probe("for_each_alive_skipped_known_oob");
   if (S->subject == S_ETL) {
     ETL* e = (ETL*)I.obj;
     ((const ETL*)e)->for_each([&](const Cell* b, const Cell* en) { for (; b != en; ++b) dup += !all.insert(b).second; });
-    if (nonconst_alive) e->for_each_alive([&](Cell* b, Cell* en) { for (; b != en; ++b) dup += !alive.insert(b).second; });
+    if (skip_alive) {}
+    else if (nonconst_alive) e->for_each_alive([&](Cell* b, Cell* en) { for (; b != en; ++b) dup += !alive.insert(b).second; });
     else ((const ETL*)e)->for_each_alive([&](const Cell* b, const Cell* en) { for (; b != en; ++b) dup += !alive.insert(b).second; });
     for (auto& kv : S->live_tid16) if (const void* a = storage_slot(e->_storage, kv.second)) expect.insert(a);
   } else {
     CETL* e = (CETL*)I.obj;
     ((const CETL*)e)->for_each([&](const Cell16& c) { dup += !all.insert(&c).second; });
-    if (nonconst_alive) e->for_each_alive([&](Cell16& c) { dup += !alive.insert(&c).second; });
+    if (skip_alive) {}
+    else if (nonconst_alive) e->for_each_alive([&](Cell16& c) { dup += !alive.insert(&c).second; });
     else ((const CETL*)e)->for_each_alive([&](const Cell16& c) { dup += !alive.insert(&c).second; });
     for (auto& kv : S->live_tid16) if (const void* a = storage_slot(e->_storage->_storage, kv.second)) expect.insert(&((const CETL::CacheLine*)a)->value[e->_cacheline_offset]);
   }
+  if (beyond && unclipped && !skip_alive)
+    for (const void* a : alive) if (!expect.count(a)) fail("oob", "for_each_alive", "for_each_alive of instance #%d, whose storage holds %zu slots while a live thread has a larger thread id, passed %p to the callback: not a slot of this instance (block table indexed out of bounds)", k, size, a);
+  if (skip_alive) { for (const void* a : I.used) if (!all.count(a)) fail("enumeration", where, "for_each of instance #%d does not visit a slot that a thread obtained from local() earlier", k); return; }
   if (dup) fail("enumeration", where, "for_each/for_each_alive visited a slot twice");
   for (const void* a : I.used) if (!all.count(a)) fail("enumeration", where, "for_each of instance #%d does not visit a slot that a thread obtained from local() earlier", k);
   for (const void* a : alive) if (!expect.count(a)) fail("enumeration", where, "for_each_alive of instance #%d visits a slot (%p) that belongs to no live thread", k, a);
